@@ -311,11 +311,21 @@ func c17Run(c *core.Ctx, ops []c17Op) (key string, ok bool) {
 	other.DidOpen(uris[0], c17Variants[1])
 	clients := make([]c17Client, 2)
 	deltaEdits := false
+	stateKey := func() string {
+		var ks []string
+		for d := 0; d < 2; d++ {
+			ks = append(ks, fmt.Sprintf("d%d text=%d open=%v client=%v id=%v", d, text[d], open[d], clients[d].data, clients[d].hasID))
+		}
+		// result ids are process-global counters: the key keeps only which ids are current/previous, not their values
+		return strings.Join(ks, ";") + "\n" + c17CacheShape()
+	}
+	key = ""
 	for i, op := range ops {
 		last := i == len(ops)-1
 		u := uris[op.Doc]
 		cl := &clients[op.Doc]
 		check := false
+		checkRange, rangeResult := false, ""
 		switch op.Kind {
 		case "edit":
 			if !open[op.Doc] || text[op.Doc] == op.Arg {
@@ -341,7 +351,8 @@ func c17Run(c *core.Ctx, ops []c17Op) (key string, ok bool) {
 			if !open[op.Doc] {
 				return "", false
 			}
-			s.Call("textDocument/semanticTokens/range", fmt.Sprintf(`{"textDocument":{"uri":%s},"range":{"start":{"line":0,"character":0},"end":{"line":1,"character":0}}}`, wire.Q(u)))
+			rr := s.Call("textDocument/semanticTokens/range", fmt.Sprintf(`{"textDocument":{"uri":%s},"range":{"start":{"line":0,"character":0},"end":{"line":1,"character":0}}}`, wire.Q(u)))
+			rangeResult, checkRange = rr.Result, true
 		case "full":
 			if !open[op.Doc] {
 				return "", false
@@ -418,9 +429,37 @@ func c17Run(c *core.Ctx, ops []c17Op) (key string, ok bool) {
 			check = true
 		}
 		if last {
+			// the state key is taken before the oracle's probes (they reset the process-global token cache)
+			key = stateKey()
 			c.Res.Evaluations++
 			if deltaEdits {
 				c.Res.Nontrivial++
+			}
+			if checkRange {
+				// the range result is the full result of the current text (fresh server) restricted to the lines
+				var v struct{ Data []int }
+				_ = json.Unmarshal([]byte(rangeResult), &v)
+				got, _ := decodeTokens(v.Data)
+				server.VerifxResetGlobals()
+				f := wire.New()
+				f.Initialize(wire.InitOpts{})
+				f.DidOpen(u, c17Variants[text[op.Doc]])
+				full, _, _ := semFull(f, u)
+				ftoks, _ := decodeTokens(full)
+				var want []semTok
+				for _, t := range ftoks {
+					if t.Line <= 1 {
+						want = append(want, t)
+					}
+				}
+				if fmt.Sprint(got) != fmt.Sprint(want) {
+					var kinds []string
+					for _, o := range ops {
+						kinds = append(kinds, o.Kind)
+					}
+					c.Violate("history|range result differs from the full result of the current text|"+strings.Join(kinds, ">"), "a range request returns the full result restricted to the lines",
+						fmt.Sprintf("after %v\nrange 0..1 returned %v\nfull result of the current text restricted to 0..1: %v", ops, got, want), c17Case{Part: "history", Ops: ops})
+				}
 			}
 			if check {
 				// the client's array equals the full response of a fresh server on the current text
@@ -440,12 +479,10 @@ func c17Run(c *core.Ctx, ops []c17Op) (key string, ok bool) {
 			}
 		}
 	}
-	var ks []string
-	for d := 0; d < 2; d++ {
-		ks = append(ks, fmt.Sprintf("d%d text=%d open=%v client=%v id=%v", d, text[d], open[d], clients[d].data, clients[d].hasID))
+	if key == "" {
+		key = stateKey()
 	}
-	// result ids are process-global counters: the key keeps only which ids are current/previous, not their values
-	return strings.Join(ks, ";") + "\n" + c17CacheShape(), true
+	return key, true
 }
 
 func c17CacheShape() string {
